@@ -475,4 +475,82 @@ def r18_6(ctx):
     memo_rule(ctx, "R18.6", ["color", "palette", "color_triplet", "_palettes"], 4)
 
 
-RULES = [r18_0, r18_1, r18_4, r18_5, r18_6, r18_7]
+_METRIC_REF = "(((512 + (q0 + e0) // 2) * (q0 - e0) * (q0 - e0)) >> 8) + 4 * (q1 - e1) * (q1 - e1) + (((767 - (q0 + e0) // 2) * (q2 - e2) * (q2 - e2)) >> 8)"
+_MONOTONE = ("sqrt", "_sqrt", "math.sqrt", "isqrt", "math.isqrt")
+
+
+def r18_8(ctx):
+    ctx.rule("R18.8", "the distance minimised by Palette.match IS Rich's weighted-RGB metric: after inlining its temporaries and stripping the monotone sqrt, the distance closure's result has the same integer-polynomial normal form as ((512+rm)*dr^2 >> 8) + 4*dg^2 + ((767-rm)*db^2 >> 8) with rm = (r1+r2)//2 (x>>8 and x//256 identified, products expanded); leaving integer arithmetic (true division, float weights) or other weights changes which of two near-equidistant entries wins")
+    from .. import poly
+    from ..astutil import inline as _inl, single_defs as _sdf
+    f = ctx.repo.fn("palette:Palette.match")
+    m = f.module
+    color_p = f.params[1]
+    q_names = None
+    for n in walk_local(f.node):
+        if isinstance(n, ast.Assign) and isinstance(n.targets[0], ast.Tuple) and norm(n.value) == color_p and len(n.targets[0].elts) == 3:
+            q_names = [norm(e) for e in n.targets[0].elts]
+    # candidate distance functions: closures of match, or module-level helpers it calls (parameters bound to the call's arguments)
+    keyfns = [(n, {}) for n in ast.walk(f.node) if isinstance(n, ast.FunctionDef) and n is not f.node]
+    for c in walk_local(f.node):
+        if isinstance(c, ast.Call) and isinstance(c.func, ast.Name):
+            g = m.functions.get(c.func.id)
+            if g is not None and g.cls is None and g.parent is None and not c.keywords and len(c.args) == len(g.node.args.args):
+                keyfns.append((g.node, dict(zip([a.arg for a in g.node.args.args], c.args))))
+    cands = []
+    for k, binding in keyfns:
+        e_names = None
+        qn = list(q_names) if q_names else None
+        pre = {}
+        for pname, arg in binding.items():
+            if q_names and isinstance(arg, ast.Name) and arg.id in q_names:
+                pre[pname] = q_names.index(arg.id)
+        for n in ast.walk(k):
+            if isinstance(n, ast.Assign) and isinstance(n.targets[0], ast.Tuple) and len(n.targets[0].elts) == 3:
+                src = n.value
+                if isinstance(src, ast.Name) and src.id in binding:
+                    src = binding[src.id]
+                if norm(src) == color_p:
+                    qn = [norm(e) for e in n.targets[0].elts]
+                else:
+                    e_names = [norm(e) for e in n.targets[0].elts]
+        rets = [r for r in ast.walk(k) if isinstance(r, ast.Return) and r.value is not None]
+        if pre and len(pre) == 3:
+            qn = [None, None, None]
+            for pname, i in pre.items():
+                qn[i] = pname
+        if e_names and qn and all(qn) and len(rets) == 1:
+            cands.append((k, qn, e_names, rets[0]))
+    if len(cands) != 1:
+        raise AnalysisError("Palette.match: cannot find the single distance function with 3-component query and entry unpacks")
+    k, q_names, e_names, ret = cands[0]
+    sd = {a: b for a, b in _sdf(k).items() if a not in e_names and a not in q_names}
+    expr = _inl(ret.value, sd)
+    while isinstance(expr, ast.Call) and norm(expr.func) in _MONOTONE and len(expr.args) == 1 and not expr.keywords:
+        expr = _inl(expr.args[0], sd)
+    env = {}
+    for i in range(3):
+        env[q_names[i]] = poly.var(f"q{i}")
+        env[e_names[i]] = poly.var(f"e{i}")
+    ref = poly.of_expr(ast.parse(_METRIC_REF, mode="eval").body)
+    where = f"{m.relpath}:{ret.lineno}"
+    try:
+        got = poly.of_expr(expr, env)
+    except poly.NotInteger as ex:
+        ctx.violation(f.fq, short(ret), where, f"the distance leaves integer arithmetic ({ex}): without the two floor operations of Rich's metric ((..)>>8) the order of two palette entries whose integer distances differ by 1 can flip, so for some colours downgrade() no longer returns the entry of minimum distance under the metric")
+        return
+    except poly.Unsupported as ex:
+        raise AnalysisError(f"Palette.match: distance expression not in the integer-polynomial fragment ({ex}): `{short(ret)}`")
+    free = {a for mono in got for a in mono if isinstance(a, str)} - {f"q{i}" for i in range(3)} - {f"e{i}" for i in range(3)}
+    if free:
+        raise AnalysisError(f"Palette.match: distance expression depends on names that are neither query nor entry components: {sorted(free)}")
+    if got == ref:
+        ctx.ok(where, "distance == Rich's integer weighted-RGB metric (normal forms equal)", f.fq)
+        return
+    if poly.skeleton(got) == poly.skeleton(ref):
+        ctx.violation(f.fq, short(ret), where, f"the distance has the shape of Rich's metric but different weights/divisors: {poly.show(got)}  (metric: {poly.show(ref)})")
+        return
+    raise AnalysisError(f"Palette.match: cannot show the distance equal to Rich's metric nor positively different: {poly.show(got)}")
+
+
+RULES = [r18_0, r18_1, r18_4, r18_5, r18_6, r18_7, r18_8]
